@@ -827,9 +827,10 @@ Definition path_is_values_name (p : list step) : bool :=
      constant holds, and only OSError is caught around inet_aton/inet_pton;
      Guarded = proposed_fixes/C09-specials-guards.diff: constants that are not
      StringConstant are left alone and ValueError is caught as well.
-   regex_mode: LowerRegex = the pinned code lower-cases the constant of every
-     operator on a registry-key path, MATCHES included; KeepRegex =
-     proposed_fixes/C09-regkey-matches.diff leaves the regular expression alone. *)
+   regex_mode: LowerRegex = the pinned code rewrites the constant of every operator
+     on a special path, MATCHES included (a regular expression is lower-cased on a
+     registry-key path, replaced by a canonical address on an IP path); KeepRegex =
+     proposed_fixes/C09-specials-matches.diff leaves the regular expression alone. *)
 Inductive special_mode := Unguarded | Guarded.
 Inductive regex_mode := LowerRegex | KeepRegex.
 Record variant := mkVariant { v_special : special_mode; v_regex : regex_mode }.
@@ -867,9 +868,9 @@ Definition special_text (m : special_mode) (k : sp_kind) (strict : bool) (s : us
 Definition special_atom (v : variant) (a : atom) : res atom :=
   let m := v_special v in
   let set_rhs k := mkAtom (a_type a) (a_path a) (a_op a) (a_neg a) k in
-  let kind := match special_kind (a_type a) (a_path a), v_regex v with
-              | SpReg, KeepRegex => if is_matches (a_op a) then SpNone else SpReg
-              | k, _ => k
+  let kind := match v_regex v with
+              | KeepRegex => if is_matches (a_op a) then SpNone else special_kind (a_type a) (a_path a)
+              | LowerRegex => special_kind (a_type a) (a_path a)
               end in
   match kind with
   | SpNone => Ok a
@@ -921,7 +922,7 @@ Definition cnormalize (m : variant) (fuel : nat) (e0 : cexpr0) : res (cexpr * bo
 
 Inductive qual :=
 | QRepeat (n : Z)              (* RepeatQualifier(IntegerConstant) *)
-| QWithin (n : Z)              (* WithinQualifier(IntegerConstant) *)
+| QWithin (m : Z) (e : N)      (* WithinQualifier(IntegerConstant | FloatConstant): the decimal m * 10^-e seconds *)
 | QStartStop (s t : Z).        (* StartStopQualifier(TimestampConstant, TimestampConstant), microseconds *)
 
 Inductive oexpr0 :=
@@ -943,12 +944,12 @@ Inductive oexpr :=
 Definition qual_cmp (a b : qual) : comparison :=
   match a, b with
   | QRepeat x, QRepeat y => Z.compare x y
-  | QWithin x, QWithin y => Z.compare x y
+  | QWithin m1 e1, QWithin m2 e2 => num_cmp m1 e1 m2 e2          (* generic_constant_cmp on int/float values *)
   | QStartStop s1 t1, QStartStop s2 t2 => match Z.compare s1 s2 with Eq => Z.compare t1 t2 | c => c end
   | QRepeat _, _ => Lt
   | _, QRepeat _ => Gt
-  | QWithin _, _ => Lt
-  | _, QWithin _ => Gt
+  | QWithin _ _, _ => Lt
+  | _, QWithin _ _ => Gt
   end.
 
 (* _OBSERVATION_EXPRESSION_TYPE_ORDER *)
@@ -1221,7 +1222,8 @@ Fixpoint show_cexpr (e : cexpr) : string :=
 Definition show_qual (x : qual) : string :=
   match x with
   | QRepeat n => "R" ++ show_Z n
-  | QWithin n => "W" ++ show_Z n
+  | QWithin m e => let (m', e') := strip10 400 m e in
+                   if (e' =? 0)%N then "W" ++ show_Z m' else "Wf" ++ show_Z m' ++ "e" ++ show_N e'
   | QStartStop s t => "S" ++ show_Z s ++ "/" ++ show_Z t
   end.
 
